@@ -97,8 +97,24 @@ func buildFont(kind string, boxes []funit.Rect16, ws []funit.Int16, cm cmapSpec)
 			}
 			g := cff.NewGlyph(name, float64(ws[i]))
 			if !b.IsZero() {
+				// every third glyph is hinted the way hinted CFF glyphs with
+				// hint replacement are laid out: stems declared, the command
+				// list opening with a hintmask (i%3 == 1) or carrying a
+				// cntrmask + hintmask pair before the first moveto, and
+				// another mask between two path segments; masks carry no point
+				if i%3 == 1 && b.LLy < b.URy && b.LLx < b.URx {
+					g.HStem = []float64{float64(b.LLy), float64(b.URy)}
+					g.VStem = []float64{float64(b.LLx), float64(b.URx)}
+					if i%2 == 0 {
+						g.Cmds = append(g.Cmds, cff.GlyphOp{Op: cff.OpCntrMask, Args: []float64{0xC0}})
+					}
+					g.Cmds = append(g.Cmds, cff.GlyphOp{Op: cff.OpHintMask, Args: []float64{0xF0}})
+				}
 				g.MoveTo(float64(b.LLx), float64(b.LLy))
 				g.LineTo(float64(b.URx), float64(b.LLy))
+				if len(g.HStem) > 0 {
+					g.Cmds = append(g.Cmds, cff.GlyphOp{Op: cff.OpHintMask, Args: []float64{0x50}})
+				}
 				g.LineTo(float64(b.URx), float64(b.URy))
 				g.LineTo(float64(b.LLx), float64(b.URy))
 			}
